@@ -45,7 +45,9 @@ func genC13(t *rapid.T) c13Case {
 	return c
 }
 
-func runC13(c c13Case) ev.Outcome {
+func runC13(c c13Case) (out ev.Outcome) {
+	var watch bigWatch
+	defer func() { watch.finish(&out, "MtA") }()
 	cv := getCurve(c.Curve)
 	q := cv.Q
 	ap, bp := preParams()[c.ASet], preParams()[c.BSet]
@@ -54,7 +56,7 @@ func runC13(c c13Case) ev.Outcome {
 	if c.ASet != c.BSet {
 		pair = "offdiag"
 	}
-	out := ev.Outcome{Label: fmt.Sprintf("mta %s pair=%s a=%s b=%s wc=%v alter=%s", c.Curve, pair, c.AC, c.BC, c.WC, c.Alter)}
+	out = ev.Outcome{Label: fmt.Sprintf("mta %s pair=%s a=%s b=%s wc=%v alter=%s", c.Curve, pair, c.AC, c.BC, c.WC, c.Alter)}
 	out.Nontrivial = c.AC != "rand" || c.BC != "rand" || pair == "offdiag" || c.Alter != ""
 	fail := func(sig, f string, a ...interface{}) ev.Outcome {
 		out.Err, out.Sig = fmt.Errorf(f, a...), sig
@@ -62,10 +64,15 @@ func runC13(c c13Case) ev.Outcome {
 	}
 	a, b := c.A.Big(), c.B.Big()
 	sess := c.Sess.Bytes()
+	watch.add("a", a)
+	watch.add("b", b)
 	cA, pfA, err := mta.AliceInit(cv.EC, pkA, a, bp.NTildei, bp.H1i, bp.H2i, rand.Reader)
 	if err != nil {
 		return fail("alice-init", "AliceInit refused a in [0,q): %v", err)
 	}
+	watch.add("cA", cA)
+	watch.add("N_A", pkA.N)
+	watch.add("NTilde/h1/h2", ap.NTildei, ap.H1i, ap.H2i, bp.NTildei, bp.H1i, bp.H2i)
 	N2 := mul(pkA.N, pkA.N)
 	alterCt := func(ct *big.Int, how string) *big.Int {
 		switch how {
@@ -177,6 +184,8 @@ func runC13(c c13Case) ev.Outcome {
 	} else {
 		beta, cB, _, piB, err = mta.BobMid(sess, cv.EC, pkA, pfA, b, cAforBob, ap.NTildei, ap.H1i, ap.H2i, bp.NTildei, bp.H1i, bp.H2i, rand.Reader)
 	}
+	watch.add("cB", cB)
+	watch.add("beta", beta)
 	if cAforBob != cA {
 		if err == nil {
 			return fail("cA-altered-accepted", "Bob produced a response although Alice's ciphertext was altered in transit (%s)", c.Alter)
